@@ -159,11 +159,16 @@ def drive(GNP, F3, F4, name, role, build=True):
 def shards(tier, seed):
     L = 3 if tier == "quick" else 4
     nsh = 4 if tier == "quick" else 16
-    return [{"L": L, "nshards": nsh, "shard": i} for i in range(nsh)]
+    return [{"L": L, "nshards": nsh, "shard": i} for i in range(nsh)] + [{"kind": "repo_tests", "modules": ["tests/test_parsers.py"]}]
 
 
 def run_shard(spec):
     GNP, F3, F4 = install()
+    if spec.get("kind") == "repo_tests":
+        from vlib import repo_tests
+        from vlib.props import c16
+        c16.install()
+        return repo_tests.run(spec["modules"])
     idx = 0
     for L in range(1, spec["L"] + 1):
         for toks in itertools.product(TOKENS, repeat=L):
